@@ -928,8 +928,8 @@ package zygo
 //@ ghost asked := true @after call Type[0]
 //@ ghost ety := ret0 @after call Type[0]
 //@ ghost sty := ret0 @after call GetOrCreateSliceType[0]
-//@ C17 ensures typed-by-its-current-first-element: len(r.Val) > 0 ==> asked && (ety != nil ==> r0 == sty) && (ety == nil ==> r0 == nil)
-//@ C17 ensures empty-is-the-empty-slice-unless-typed: len(r.Val) == 0 && old(r.Typ) != nil ==> r0 == old(r.Typ)
+//@ C17 ensures typed-by-its-current-first-element: old(len(r.Val) > 0) ==> asked && (ety != nil ==> r0 == sty) && (ety == nil ==> r0 == nil)
+//@ C17 ensures empty-is-the-empty-slice-unless-typed: old(len(r.Val) == 0 && r.Typ != nil) ==> r0 == old(r.Typ)
 
 // every successful set on a typed record stores a declared field; a rejected set changes nothing (C14 contract)
 //@ func (*SexpHash).HashSet
